@@ -416,8 +416,8 @@ def make_zone(kind, relativize, pre):
         z.set_max_versions(3)
     if pre:
         # two transactions, so that versioned zones start with some history.  The first one
-        # is a replacement: a fresh dns.btreezone.Zone cannot open a plain writer (its
-        # initial version is not frozen) - not this property's business.
+        # is a replacement (as a zone load does): on the e4ca1f6 snapshot a fresh
+        # dns.btreezone.Zone could not open a plain writer - not this property's business.
         for i, part in enumerate(pre_parts(relativize, pre)):
             if not part:
                 continue
